@@ -57,7 +57,8 @@ def main() -> int:
     except Exception:  # noqa
         import traceback
 
-        traceback.print_exc()
+        print("HARNESS ERROR (exit 2, not a verdict about the property):")
+        traceback.print_exc(file=sys.stdout)
         return 2
 
 
